@@ -42,7 +42,17 @@ PARTIAL = [
     "(tetris_no_fault, tetris_place_no_fault: targets up to 2^29 as placeGlobal may hand over), Circuit::pinX/YOffset "
     "(pin_offset_no_fault), IncrNetModel x/yTopology + build + any updateCellPos sequence (incrnet_no_fault, "
     "incrnet_update_no_fault), DetailedPlacement canInsert/canSwap/positionOnInsert/positionsOnSwap/insert/swap along any "
-    "accepted history (detplace_no_fault, detplace_history_no_fault); the transportation of DensityLegalizer::reoptimize as "
+    "accepted history (detplace_no_fault, detplace_history_no_fault); the integer bookkeeping of the density grid "
+    "(Model/GridChecked.lean): the constructor DensityGrid(binSize, regions) as a whole - width()/maxSize, both "
+    "computeSubdivisions calls, the int sums of updateBinCenters, updateBinCapacity() and updateBinCapacity(regions) "
+    "(intersection areas accumulated in long long), the asserts of binLimitX/Y, updateBinCapacity and check(), every index - "
+    "for at most 2^16 well-formed regions within 2^22 and binSize >= 1 (grid_capacity_no_fault), totalCapacity() on any "
+    "grid of consistent shape with non-negative capacities whose total fits (grid_total_capacity_no_fault), the long long -> "
+    "int narrowing of the cell areas in fromIspdCircuit / updateCellDemand, totalDemand() and binUsage(x, y) for at most 2^20 "
+    "cells with demands in [0, 2^31) (grid_usage_no_fault), and refineX / refineY / coarsenX / coarsenY - assertion, level "
+    "arithmetic, every index of the loop and of updateCellToBin() - in every state satisfying C16's invariant Grid.Inv "
+    "(grid_refine_no_fault; C16 alloc_inv proves Inv for every state reachable from the constructor); the transportation of "
+    "DensityLegalizer::reoptimize as "
     "a whole - costsFromIntegers' fixed-point scaling (binary64 model, every result in [0, 2^29] so the double->int "
     "conversion is defined), increaseCapacity, the complete successive-shortest-path run (int cost differences and label "
     "sums with the INT_MAX sentinel, long long demands/capacities/allocations, every std::accumulate partial sum), "
@@ -55,7 +65,25 @@ PARTIAL = [
     "the unbounded model's value.  Each core is tied to the C++ two-sidedly: in-domain 2^22 streams (same values, never a "
     "fault) and beyond-domain streams up to 2^31 (2^62 for the long long quantities) where the checked model must predict "
     "exactly which cases UBSan/assert kill (row legalizer, subdivisions, Tetris, IncrNetModel, DetailedPlacement, general "
-    "transportation G/H, scaled 1-D transportation V/W; stage U keeps the unit-supply full-line shapes)",
+    "transportation G/H, scaled 1-D transportation V/W, density grid B/Z: coordinates up to 2^31, piles of (2^31-1)^2 "
+    "regions, binSize <= 0, ill-formed regions, refine/coarsen outside their contract in the assertion-enabled build; "
+    "stage U keeps the unit-supply full-line shapes)",
+    "density grid, what is NOT proved: (a) the float parts are left out - DensityGrid::fromIspdCircuit's "
+    "`sideMargin * minCellHeight` / `sizeFactor * minCellHeight` (float products converted to int; C16 models their values, "
+    "the conversions are sanitizer-monitored), the `0.5f *` half of updateBinCenters, binX/binY, groupCenterX/Y, "
+    "simpleCoord/spreadCoord; (b) grid_total_capacity_no_fault takes `total <= 2^63-1` as a hypothesis: that the grid of "
+    "grid_capacity_no_fault satisfies it (total = sum of the region areas <= 2^16 * 2^46, C16 grid_tiles_and_conserves) is "
+    "argued in the docstring, not assembled into one Lean statement; (c) DensityGrid::binCapacity(BinGroup) has a checked "
+    "twin (groupCapacityC, executed by stream B/Z for every bin of every view) but no no-fault theorem; (d) the refine/coarsen "
+    "twins check assertion, level arithmetic and every index of the loops and return the unbounded model's state (the "
+    "vectors the loops fill are the model's by construction); check()'s allocation assertions are exactly C16's AllocInv "
+    "(proved there) and are not restated, its two long long accumulations (usage, capacity) have a twin for the usage "
+    "(usageSumC) without theorem; (e) binUsage's bound assumes at most 2^20 cells in the bin (a hypothesis; it follows from "
+    "AllocInv's nodup + range but that step is not proved); (f) negative demands are outside the domain: the constructor's "
+    "check() trips `placeX[c] != -1 || cellDemand_[c] == 0` on them in the assertion-enabled build (observed while building "
+    "stream Z; not generated); (g) a narrowing that loses the value (area >= 2^31) is a model fault "
+    "(grid_demand_narrowing_beyond_domain) but not a sanitizer event, so stream Z cannot contain it; stream B compares the "
+    "narrowed values of updateCellDemand(circuit) in-domain",
     "transp_costs_fit is FULL for the integer run and for costsFromIntegers; what remains conditional on the float side: "
     "(a) that no float intermediate of DensityLegalizer::distance overflows to inf is proved for all six cost models "
     "(transp_float_costs_finite: bins/targets within 2^30, penalty factor in [0,1] resp. 0 for the squared models), but "
@@ -78,7 +106,8 @@ PARTIAL = [
     "boost::polygon (Row::freespace), lemon (network simplex), iostream, the remaining float->int conversions "
     "(DensityLegalizer spreading/export, exportPlacement, computeCellOrder keys; the float->long long conversions of "
     "improveX/YTransport are in range by the scaling model of transp1d_scaled_no_fault, which has no stream of its own), "
-    "the density legalizer outside the two transportation solvers (hierarchy, bisection, bin bookkeeping), the search "
+    "the density legalizer outside the two transportation solvers and the grid bookkeeping above (bisection, "
+    "findConstrainedSplitPos, the float bin/group centres), the search "
     "loops of place_detailed.cpp (swap / shift / reordering candidates, RowReordering) around the modelled "
     "DetailedPlacement primitives, the DetailedPlacement constructor as a whole (only its two arithmetic leaves "
     "locate/linkRow have checked twins), AbacusLegalizer beyond its cost arithmetic, Legalizer::run glue, and the glue "
@@ -145,11 +174,11 @@ ASSUMPTIONS = [
 ]
 LEVEL_TEXT = ("Lean 4 no-fault theorems over checked (typed-arithmetic) models of the integer cores (row legalizer, Abacus cost, "
               "Tetris legalizer, computeSubdivisions, freespace rectangles, pin offsets, IncrNetModel, DetailedPlacement "
-              "primitives; the whole transportation of the rough legalizer: float cost scaling to fixed point, increaseCapacity, "
+              "primitives, the density grid's constructor / capacities / demands / usage / refine-coarsen index arithmetic; the whole transportation of the rough legalizer: float cost scaling to fixed point, increaseCapacity, "
               "the successive-shortest-path run, and the 1-D transportation with its 1e8/width scaling), each tied to the C++ by "
               "correspondence streams at 2^22 magnitude and by beyond-domain streams where the model predicts the sanitizer kills; "
               "everything else in the three entry points (the other floating point code, Eigen/boost/lemon, the density "
-              "legalizer's hierarchy, search loops, glue) is monitored by an end-to-end fault oracle (forked child per case, "
+              "legalizer's bisection and float centres, search loops, glue) is monitored by an end-to-end fault oracle (forked child per case, "
               "ASan+UBSan+float-cast-overflow, assertion-enabled and NDEBUG builds; thorough tier: a third build with the "
               "libstdc++ container assertions) over classic, 2^22-scaled, unit-grid, dense-grid and tiny circuits, with observing "
               "callbacks and with scripted callbacks that resize cells (to and from zero area), reweight nets and query the "
